@@ -949,8 +949,7 @@ impl<'a> Gen<'a> {
     }
 
     fn deco_op(&mut self, out: &mut Vec<Item>) {
-        // a decorator is always placed between two real operations of the same span
-        let id = self.next_emit;
+                let id = self.next_emit;
         self.next_emit += 1;
         let txt = match self.rng.below(6) {
             0 | 1 | 2 => format!("emit.{}", id),
@@ -958,6 +957,12 @@ impl<'a> Gen<'a> {
             4 => "debug.stack".to_string(),
             _ => "debug.stack.4".to_string(),
         };
+        // half of them bare (possibly first / last / only item of a block: the assembler has to attach
+        // them to a neighbouring span or make a NOOP span), half between two real operations
+        if self.rng.chance(1, 2) {
+            out.push(op(txt, 0));
+            return;
+        }
         out.push(op("push.0", 1));
         out.push(op(txt, 0));
         out.push(op("drop", 1));
@@ -1123,7 +1128,15 @@ impl<'a> Gen<'a> {
         let nest = self.cfg.max_nest.saturating_sub(1).min(2);
         let saved = self.cfg.max_nest;
         self.cfg.max_nest = nest;
-        let body = self.neutral_body(&mut st, 0);
+        let mut body = self.neutral_body(&mut st, 0);
+        // tiny bodies (in particular decorator-only ones) would share one MAST root with each other
+        // (F32; a kernel refuses duplicates): make them distinct
+        let real = body.iter().filter(|it| !matches!(it, Item::Op { cost: 0, .. })).count();
+        if real < 4 {
+            let tag = 7000 + self.procs.len() as u64;
+            body.insert(0, op(format!("push.{}", tag), 1));
+            body.insert(1, op("drop", 1));
+        }
         self.cfg.max_nest = saved;
         self.cur_locals = 0;
         self.in_kernel = false;
